@@ -316,6 +316,8 @@ def run_identity(rec, rng):
 
 def run_shard(rec, seed, shard, tier):
     warnings.filterwarnings("ignore")
+    if shard.get("i", 1) % 2 == 1:
+        real.hostile_prelude(rec)  # a past: nothing the check decides may depend on it
     GT.ensure_registered()
     run_identity(rec, random.Random(f"{seed}/C08/{shard['i']}/identity"))
     for k in range(CASES[tier]):
